@@ -125,6 +125,8 @@ var Mutants = []Mutant{
 	{ID: "loopvar-declare-unchecked", Props: []string{"C06"}, Rule: "R-BLINDADV", File: "pkg/parser/parser.go", Find: "\t\tp.advance() // advance past loopVarName\n\t\tp.assertToken(lexer.DECLARE)\n\t\tp.advance() // advance past :=", Replace: "\t\tp.advance() // advance past loopVarName\n\t\tp.advance() // advance past :=", Expect: "parseForStatement#advance", Describe: "`for i = range 3` is accepted and formatted with :="},
 	// C07
 	{ID: "indent-unbalanced", Props: []string{"C07"}, Rule: "R-INDENTPAIR", File: "pkg/parser/format.go", Find: "\t\tf.writeLn()\n\t}\n\n\tf.indentLevel--\n}", Replace: "\t\tf.writeLn()\n\t}\n}", Expect: "writeStmts#indent-balance", Describe: "writeStmts forgets to decrease the indentation"},
+	{ID: "formatter-state-leak", Props: []string{"C07"}, Rule: "R-INDENTPAIR", File: "pkg/parser/format.go", Find: "\tindentLevel int\n}", Replace: "\tindentLevel int\n\tlastBlank   bool\n}",
+		Find2: "\tf.indentLevel++\n\tempty := false\n", Replace2: "\tf.indentLevel++\n\tf.lastBlank = false\n\tempty := false\n", Expect: "writeStmts#state-restored:lastBlank", Describe: "the nested statement list resets a formatter state field and does not put back the enclosing list's value"},
 	{ID: "comment-trimright", Props: []string{"C07"}, Rule: "R-INDENTPAIR", File: "pkg/parser/format.go", Find: "f.write(strings.TrimSpace(c))", Replace: "f.write(strings.TrimRight(c, \" \"))", Expect: "writeComment#trimmed", Describe: "comments keep trailing tabs"},
 	{ID: "steprange-cached-per-statement", Props: []string{"C10"}, Rule: "R-FRESH", File: "pkg/evaluator/evaluator.go", Find: "\tsRange := &stepRange{\n\t\tcur:  start,\n\t\tstop: stop,\n\t\tstep: step,\n\t}\n", Replace: "\tsRange := stepRangeCache[r]\n\tif sRange == nil {\n\t\tsRange = &stepRange{}\n\t\tstepRangeCache[r] = sRange\n\t}\n\tsRange.cur, sRange.stop, sRange.step = start, stop, step\n",
 		Find2: "func (e *Evaluator) newStepRange(", Replace2: "var stepRangeCache = map[*parser.StepRange]*stepRange{}\n\nfunc (e *Evaluator) newStepRange(",
